@@ -576,6 +576,23 @@ def r20_13(run, model):
                witness="hover in Lib/lib.gom (package Lib, no imports): `() -> Point` instead of `() -> Lib::Point`, a struct literal hovers as TypeVar(4)")
 
 
+def r20_14(run, model):
+    run.rule("R20.14", "a query sees the package the buffer belongs to: the single-file path answers only when the buffer is the whole "
+                       "package - its early acceptance must not rest on `no imports` alone, because the other files of the directory "
+                       "belong to the package too (the package-aware path is only reached when the single-file path fails)")
+    f = model.fn("typecheck_single_file_for_query", QUERY)
+    rejects = []
+    for iff in S.find(f.body, "If"):
+        if any(r.get("expr") is not None and S.callee_name(r["expr"]) == "Err" for r in S.find(iff["then"], "Return")):
+            rejects.append(S.norm_ws(run.facts.text(QUERY, iff["cond"]["sp"])))
+    looks_at_dir = re.search(r"read_dir|read_gom_sources|siblings|discover_packages|parent\(\)", S.norm_ws(run.facts.text(QUERY, f.body["sp"]))) is not None
+    ok = looks_at_dir
+    run.ob("R20.14", "typecheck_single_file_for_query|the single-file path is refused when the package has other files", ok, site(QUERY, f.node["sp"]),
+           f"conditions that hand over to the package-aware path: {rejects}; the directory is consulted: {looks_at_dir}",
+           witness="package Main = main.gom + util.gom, no imports: hover in main.gom on a call of a function defined in util.gom reports TypeVar(1) / "
+                   "no type information; dot completion after `p.` (p from util.gom) is empty")
+
+
 def run(run, model):
     mir = Mir(run.facts)
     g = Graph(mir)
@@ -587,6 +604,7 @@ def run(run, model):
     run.try_rule(r20_11, model)
     run.try_rule(r20_12, model)
     run.try_rule(r20_13, model)
+    run.try_rule(r20_14, model)
     from rules import c07
     run.rule("R20.7", "the occurs check looks into every component of every type former (shared with C07 R07.2, restricted to typer::unify): a "
                       "missed component lets a cyclic type through and the next query overflows the stack")
